@@ -114,7 +114,7 @@ func checkC18(c caseC18) (Outcome, error) {
 			if res.Err != nil {
 				errText = res.Err.Error()
 			}
-			if errText != plainErr[name] {
+			if stripSGR(errText) != stripSGR(plainErr[name]) {
 				return out, fmt.Errorf("%s under theme %s fails differently (%q vs %q)", name, theme, errText, plainErr[name])
 			}
 			if strings.Contains(res.Out, "\x1b[") {
